@@ -611,8 +611,21 @@ def run_driver(rng, name):
             seen["objs"] = objs
             vals = [eval_py(p, objs, objs[0]) for p in progs]
             seen["vals"] = vals
-            return vals[0][-1] if len(progs) == 1 and name != "jacobian" else [v[-1] for v in vals]
+            if len(progs) == 1 and name != "jacobian":
+                return vals[0][-1]
+            out = [v[-1] for v in vals]
+            # any sequence of dual numbers is a legitimate return value of a vector function
+            if seen["container"] == "tuple":
+                return tuple(out)
+            if seen["container"] == "ndarray":
+                arr = np.empty(len(out), dtype=object)
+                for i_, o_ in enumerate(out):
+                    arr[i_] = o_
+                return arr
+            return out
         return cb
+
+    seen["container"] = rng.choice(["list", "list", "tuple", "ndarray"])
 
     y, ijk, dims = [], (0, 0, 0), (0, 0)
     if name in ("first_derivative", "second_derivative", "third_derivative"):
@@ -652,7 +665,7 @@ def run_driver(rng, name):
         dims = (n, 0)
         progs = [gen_program(rng, n, x, 8 + n) if rng.random() > 0.15 or i == m - 1 else [{"op": "from_re", "f": 2.5}] for i in range(m)]
         call = lambda f: nd.jacobian(f, x)
-        key = "jacobian|m%d|n%d" % (m, n)
+        key = "jacobian|m%d|n%d|returns-%s" % (m, n, seen["container"])
     elif name == "partial_hessian":
         if rng.random() < 0.25:
             m, n = rng.choice([(6, 2), (2, 6), (6, 6), (7, 1), (1, 7)])
